@@ -274,9 +274,11 @@ class Ctx:
 
     def witness(self, key, what, inp):
         """The property itself fails on the implementation for input `inp`."""
-        if len(self.witnesses) < 50:
+        nkey = sum(1 for w in self.witnesses if w['key'] == key)
+        if len(self.witnesses) < 60 and nkey < 5:      # per-key cap: a flood of one key must not hide another
             self.witnesses.append({'key': key, 'what': what, 'input': inp})
         self.count('witnesses')
+        self.count('witness:' + str(key))
 
     def log(self, msg):
         print(f'[{self.pid}] {msg}', flush=True)
